@@ -51,7 +51,8 @@ ASSUMPTIONS = [
     "kconfgen's temp files live in TMPDIR (the run directory on tmpfs)",
     "crash model: process death, completed operations persist, no reordering; shutil.copyfile is modelled as create/truncate + one "
     "write with cut points; 'complete configuration' = byte-identical to the full text",
-    "part B third disjunct (dest == complete previous while the backup has not finished) as decided in DESIGN.md C13",
+    "part B third disjunct as decided in DESIGN.md C13: dest == complete previous counts while the backup has not finished = the "
+    "crash precedes the open(dest, 'w') of the new text, or no operation on the destination itself has completed yet",
 ]
 
 EPOCH_NS = 1_000_000_000 * 10**9
@@ -546,6 +547,10 @@ def part_b(e: Env, item: dict, r: common.Result, only: Optional[list] = None) ->
     # the backup step is everything before the open(dest, "w") of the new configuration
     opens = [o["i"] for o in dry if o["op"] == "open" and o["path"] in dest_rels and not o["path"].endswith(".old")]
     backup_end = opens[-1] if opens else len(dry)
+    # first operation that modifies the destination itself (as target, or as source of a rename): while none has completed
+    # the destination is the untouched previous file, whatever the implementation considers its backup step to be
+    touching = [o["i"] for o in dry if o["path"] in dest_rels or o.get("src") in dest_rels]
+    first_dest_op = touching[0] if touching else len(dry)
     r.count("B_saves")
     r.count("B_ops", len(dry))
     # ---- every crash point
@@ -571,7 +576,7 @@ def part_b(e: Env, item: dict, r: common.Result, only: Optional[list] = None) ->
         D, O = read_through(dest), read_through(dest + ".old")
         pd, po = pattern(D, new, prev, older), pattern(O, new, prev, older)
         r.outcome(("B", kind, older is not None, cls, pd, po))
-        in_backup = point[0] < backup_end
+        in_backup = point[0] < backup_end or point[0] <= first_dest_op
         if not (D == new or O == prev or (in_backup and D == prev)):
             c = dict(case)
             c["crash"] = [point[0], point[1]]
